@@ -121,21 +121,21 @@ type Options struct {
 
 // ObsJob is what one executed job observed.
 type ObsJob struct {
-	Key       string       `json:"key"`
-	Path      string       `json:"path"` // call path without fork
-	Fork      string       `json:"fork"`
-	Phase     string       `json:"phase"`
-	Chunk     int          `json:"chunk"`
-	Args      *progen.Val  `json:"-"`
+	Key       string        `json:"key"`
+	Path      string        `json:"path"` // call path without fork
+	Fork      string        `json:"fork"`
+	Phase     string        `json:"phase"`
+	Chunk     int           `json:"chunk"`
+	Args      *progen.Val   `json:"-"`
 	ChunkDefs []*progen.Val `json:"-"`
 	ChunkOuts []*progen.Val `json:"-"`
-	ArgsText  string       `json:"args"`
-	SubmitSeq int          `json:"submit_seq"`
-	Attempt   int          `json:"attempt"`
-	Finished  bool         `json:"finished"`
-	Recorded  bool         `json:"recorded"` // the completion marker was written in full
-	How       string       `json:"how"`
-	MdPath    string       `json:"-"`
+	ArgsText  string        `json:"args"`
+	SubmitSeq int           `json:"submit_seq"`
+	Attempt   int           `json:"attempt"`
+	Finished  bool          `json:"finished"`
+	Recorded  bool          `json:"recorded"` // the completion marker was written in full
+	How       string        `json:"how"`
+	MdPath    string        `json:"-"`
 }
 
 type Result struct {
@@ -160,12 +160,12 @@ type Result struct {
 	Unordered   map[string]int
 	H           *core.VerifHarness
 	// file checks
-	FileProblems []string           // a job found a file named in its arguments missing or damaged
-	Removed      []Removal          // removals performed by storage.go (VDR), measured just before
-	Written      map[string]int64   // files written by stage code: path -> size
-	Tree         map[string]int64   // regular files under the pipestance dir at the end: path -> size
-	PsPath       string
-	VdrReport    *core.VDRKillReport
+	FileProblems   []string         // a job found a file named in its arguments missing or damaged
+	Removed        []Removal        // removals performed by storage.go (VDR), measured just before
+	Written        map[string]int64 // files written by stage code: path -> size
+	Tree           map[string]int64 // regular files under the pipestance dir at the end: path -> size
+	PsPath         string
+	VdrReport      *core.VDRKillReport
 	OutsideEffects []string
 	DebugNotes     []string
 	// TopOutsPre is the top-level _outs before post-processing.
